@@ -16,13 +16,14 @@ from mc.harness import validate
 PROPERTY = "C08"
 RULE = (
     "E1 product enumeration with a capture driver in place of scipy.optimize.minimize / differential_evolution (replaced in "
-    "the plug-in module namespace): EVERY vector of constraint kinds {eq, lower, upper, two-sided, unbounded} for up to N "
+    "the plug-in module namespace): EVERY vector of constraint kinds {eq, lower, upper, two-sided, unbounded, narrow two-sided} for up to N "
     "non-linear x up to N linear constraints (N=2 quick, 3 thorough) for the constraint-capable methods (slsqp, cobyla, "
     "differential_evolution); single kinds and pairs for the other seven methods; x variable mask {none, one fixed, two "
-    "fixed} x variable-bound kinds per variable x options {None, {}, dict} x max_iterations. Oracle on an integer lattice of "
+    "fixed} x variable-bound settings {none, both, mixed, upper-only, lower-only} x options {None, {}, dict} x max_iterations. Oracle on an integer lattice of "
     "test points (affine constraints with integer coefficients, bounds at integers, so no tolerance): "
     "configured-feasible(x) => handed-feasible(x) => feasible w.r.t. bounds, non-linear constraints and every linear row that "
-    "does not touch a fixed variable; each dict jac == exact difference quotient of its own fun; max_iterations reaches the "
+    "does not touch a fixed variable (plus, per constraint row and bound, points 2^-12 inside/outside/on the bound and in the "
+    "middle of two-sided bands, incl. a band that is narrow relative to its magnitude); each dict jac == exact difference quotient of its own fun; max_iterations reaches the "
     "back-end for every options form; NotImplementedError is an acceptable answer, silently handing a non-equivalent "
     "problem is not. Every accepted configuration is non-trivial; rejected ones are counted trivial."
 )
@@ -30,9 +31,13 @@ ASSUMPTIONS = [
     "what SciPy does with the handed problem is trusted; only the seam is checked",
     "a linear row touching a fixed variable may be absent (statement: 'every retained linear constraint'), but if handed it must be the exact restriction",
 ]
-BOUNDS = {"quick": "<=2 non-linear x <=2 linear kinds, 3 masks, 3 bound settings, 3 option forms", "thorough": "<=3 x <=3 kinds"}
+BOUNDS = {
+    "quick": "<=2 non-linear x <=2 linear kinds (6 kinds); kind vectors of total length <=2 crossed with 3 masks x 5 bound settings x 4 option variants, longer ones with 3 masks",
+    "thorough": "<=3 x <=3 kinds; longer vectors with 3 masks x 3 bound settings",
+}
 
-KINDS = ["eq", "lower", "upper", "two", "free"]
+KINDS = ["eq", "lower", "upper", "two", "free", "narrow"]
+NARROW_WIDTH = 2.0**-7
 CAPABLE = ["slsqp", "cobyla", "differential_evolution"]
 OTHERS = ["nelder-mead", "powell", "cg", "bfgs", "newton-cg", "l-bfgs-b", "tnc"]
 V = 3
@@ -49,6 +54,8 @@ def kind_bounds(kind: str, idx: int) -> tuple[float, float]:
         "upper": (-np.inf, 2.0 + idx),
         "two": (-1.0, 2.0 + idx),
         "free": (-np.inf, np.inf),
+        # a two-sided band that is narrow relative to its magnitude is still an inequality, not an equality
+        "narrow": (1000.0 + idx, 1000.0 + idx + NARROW_WIDTH),
     }[kind]
 
 
@@ -57,6 +64,8 @@ VBOUNDS = {
     "none": ([-np.inf] * 3, [np.inf] * 3),
     "both": ([-1.0, -2.0, 0.0], [2.0, 1.0, 3.0]),
     "mixed": ([-1.0, -np.inf, -np.inf], [np.inf, 1.0, np.inf]),
+    "upper-only": ([-np.inf, -np.inf, -np.inf], [2.0, 1.0, np.inf]),
+    "lower-only": ([-1.0, -np.inf, 0.0], [np.inf, np.inf, np.inf]),
 }
 OPTIONS = {"none": None, "empty": {}, "dict": {"ftol": 1e-3}}
 
@@ -242,9 +251,50 @@ def judge(case: dict[str, Any]) -> Judgement:
                     return False
         return True
 
+    # Special points: for every constraint row and each of its finite bounds (and the middle of a two-sided band) points
+    # whose row value sits 2^-12 inside / outside the bound, obtained by moving one free coordinate from a base point.
+    special: list[np.ndarray] = []
+    rows_free: list[tuple[np.ndarray, float, float, float]] = []  # (coefficients on free vars, constant, lb, ub)
+    if config.nonlinear_constraints is not None:
+        for k in range(n_nl):
+            const = float(NL_COEF[k][~mask] @ X0[~mask] + NL_OFF[k])
+            rows_free.append((NL_COEF[k][mask], const, float(config.nonlinear_constraints.lower_bounds[k]), float(config.nonlinear_constraints.upper_bounds[k])))
+    if lin_cfg is not None:
+        coef = np.asarray(lin_cfg.coefficients)
+        for r in range(len(case["lin"])):
+            rows_free.append((coef[r][mask], float(coef[r][~mask] @ X0[~mask]), float(lin_cfg.lower_bounds[r]), float(lin_cfg.upper_bounds[r])))
+    base_point = np.array([1.0, -1.0, 2.0])[:d]
+    delta = 2.0**-12
+    for a, const, lb_r, ub_r in rows_free:
+        nz = np.flatnonzero(a)
+        if nz.size == 0:
+            continue
+        i = int(nz[0])
+        targets = []
+        for b in (lb_r, ub_r):
+            if np.isfinite(b):
+                targets += [b - delta, b + delta, b]
+        if np.isfinite(lb_r) and np.isfinite(ub_r) and ub_r > lb_r:
+            targets.append((lb_r + ub_r) / 2)
+        for target in targets:
+            x = base_point.copy()
+            x[i] += (target - (float(a @ base_point) + const)) / a[i]
+            special.append(x)
     n_feasible = 0
-    for x in lattice(d):
+    flush_point = np.full(d, -77.0)
+    n_lattice = len(lattice(d))
+    for index, x in enumerate(lattice(d) + special):
         try:
+            if index >= n_lattice:
+                # special points of one row are closer together than the separation the plug-in's point cache needs
+                # (C07 grants 1e-3(1+|x|)): visit a far-away point in between, as an algorithm's steps would
+                for con in constraints:
+                    if isinstance(con, dict):
+                        con["fun"](flush_point.copy())
+                        break
+                    if isinstance(con, NonlinearConstraint):
+                        con.fun(flush_point.copy())
+                        break
             h = handed_feasible(x)
         except Exception as exc:  # noqa: BLE001
             j.fail(f"handed-constraint-raised:{type(exc).__name__}", message=str(exc)[:200])
@@ -324,8 +374,12 @@ def run_shard(shard: dict[str, Any]) -> core.ShardResult:
                         for maxiter in (True, False):
                             if not maxiter and opts != "none":
                                 continue
-                            if not thorough and shard["full"] and len(nl) + len(lin) >= 3 and (vb == "mixed" or opts == "empty"):
-                                continue  # quick thins the largest kind vectors; thorough has the full product
+                            total = len(nl) + len(lin)
+                            if shard["full"] and total >= 3:
+                                # larger kind vectors: every mask, but only the listed bound settings and options=None
+                                allowed_vb = ("both",) if not thorough else ("none", "both", "upper-only")
+                                if vb not in allowed_vb or opts != "none" or not maxiter:
+                                    continue
                             case = {"method": method, "nl": list(nl), "lin": list(lin), "mask": mask, "vbounds": vb,
                                     "options": opts, "maxiter": maxiter}
                             j = judge(case)
